@@ -308,11 +308,24 @@ func (res *Response) ReadFrom(r io.Reader) (n int64, err error) {
 
 	res.hasBody = true
 	res.eoncodeHead()
-	_, err = c.Write(*res.buffer)
-	mempool.Free(res.buffer)
-	res.buffer = nil
-	if err != nil {
-		return 0, err
+	if res.buffer != nil {
+		_, err = c.Write(*res.buffer)
+		mempool.Free(res.buffer)
+		res.buffer = nil
+		if err != nil {
+			return 0, err
+		}
+	}
+	if res.bodyBuffer != nil {
+		// The head and the body written so far go first.
+		if len(*res.bodyBuffer) > 0 {
+			_, err = c.Write(*res.bodyBuffer)
+		}
+		mempool.Free(res.bodyBuffer)
+		res.bodyBuffer = nil
+		if err != nil {
+			return 0, err
+		}
 	}
 
 	if !res.Parser.Engine.DisableSendfile {
